@@ -319,11 +319,15 @@ end
 
 /-! ## `#[derive(CborLen)]` -/
 
-/-- array encoding: the running counters `__num777`, `__len777`. -/
+/-- array encoding: the running counters `__num777`, `__len777`, `__nil777` (since commit 0196d88
+    a nil field adds `tag + cbor_len - 1` to `__nil777`, which the next non-nil field flushes into
+    `__len777`; before, a nil field below the highest present index was counted as one byte:
+    finding K3). -/
 def lenArray (ps : List (Piece Nat)) : Nat :=
-  let r := ps.foldl (fun (s : Nat × Nat) p =>
-    if !p.nil then (p.idx + 1, s.2 + ((p.idx - s.1) + tagLen p.tag + p.body)) else s) (0, 0)
-  u64Len r.1 + r.2
+  let r := ps.foldl (fun (s : Nat × Nat × Nat) p =>
+    if !p.nil then (p.idx + 1, s.2.1 + ((p.idx - s.1) + s.2.2 + tagLen p.tag + p.body), 0)
+    else (s.1, s.2.1, s.2.2 + (tagLen p.tag + p.body - 1))) (0, 0, 0)
+  u64Len r.1 + r.2.1
 
 /-- map encoding (since commit d85a3d2 the counters mirror the array branch: `__num777` counts the
     non-nil, non-skipped fields, `__len777` sums their entries; before, the header was sized from
